@@ -56,6 +56,8 @@ def tr_bool(n):
 from gen_C10 import G as G10, is_assert, assert_text, text_of
 
 CMPOPS = ("==", "!=", "<", "<=", ">", ">=")
+OLD_REL = "examples/protobuf/codec/codec.cc"
+OLD_HDR = "examples/protobuf/codec/codec.h"
 FUNCS = [
     ("muduo/net/protobuf/ProtobufCodecLite.cc", "ProtobufCodecLite::onMessage", "onMessage"),
     ("muduo/net/protobuf/ProtobufCodecLite.cc", "ProtobufCodecLite::parse", "parse"),
@@ -67,6 +69,10 @@ FUNCS = [
     ("muduo/net/http/HttpServer.cc", "HttpServer::onMessage", "HttpServer_onMessage"),
     ("muduo/net/http/HttpServer.cc", "HttpServer::onRequest", "HttpServer_onRequest"),
     ("muduo/net/http/HttpResponse.cc", "HttpResponse::appendToBuffer", "appendToBuffer"),
+    # the OLD codec of the examples directory (wire layout len, nameLen, typeName, protobufData, checkSum)
+    (OLD_REL, "ProtobufCodec::onMessage", "old_onMessage"),
+    (OLD_REL, "ProtobufCodec::parse", "old_parse"),
+    (OLD_REL, "ProtobufCodec::fillEmptyBuffer", "old_fillEmptyBuffer"),
 ]
 REQUIRED = """
 onMessage_while0 onMessage_cmp0 onMessage_cmp1 onMessage_cmp2 onMessage_cmp3
@@ -79,15 +85,30 @@ processRequestLine_cmp0 processRequestLine_cmp1 processRequestLine_cmp2 processR
 parseRequest_cmp0 parseRequest_cmp1 parseRequest_cmp2 parseRequest_cmp3
 parseRequest_call0_retrieveUntil parseRequest_call1_retrieveUntil
 HttpServer_onMessage_if0 HttpServer_onMessage_if1 HttpServer_onRequest_cmp0 appendToBuffer_if0
+old_onMessage_while0 old_onMessage_if0 old_onMessage_cmp0 old_onMessage_cmp1 old_onMessage_if1 old_onMessage_cmp2
+old_onMessage_call0_parse_arg0 old_onMessage_call0_parse_arg1 old_onMessage_if2 old_onMessage_cmp3 old_onMessage_call1_retrieve
+old_onMessage_let_len
+old_parse_call0_asInt32 old_parse_call1_adler32_arg0 old_parse_call1_adler32_arg1
+old_parse_if0 old_parse_cmp0 old_parse_call2_asInt32 old_parse_if1 old_parse_cmp1 old_parse_cmp2
+old_parse_typeName_arg0 old_parse_typeName_arg1 old_parse_if2 old_parse_let_data old_parse_let_dataLen
+old_fillEmptyBuffer_assert0 old_fillEmptyBuffer_assert1
 """.split()
 
 
 class G18(G10):
+    def var(self, name, ty):
+        # the positional free-variable convention of cxxast.GExpr (gen_C10.G may restrict names to the
+        # vocabulary of its own record `obs`; C18's facts are functions of their free names)
+        return cxxast.GExpr.var(self, name, ty)
+
     def tr(self, node, want):
         n = cxxast.strip(node)
         k = n.get("kind")
         if k == "CharacterLiteral":
             return "(%d)" % int(n["value"])
+        if k == "CXXReinterpretCastExpr" and want == "Z":
+            # reinterpret_cast<const Bytef*>(p): a pointer is its address
+            return self.tr([c for c in n.get("inner", []) if isinstance(c, dict)][0], want)
         if k == "UnaryOperator" and n.get("opcode") == "*":
             inner = [c for c in n.get("inner", []) if isinstance(c, dict)][0]
             names = [x.get("referencedDecl", {}).get("name") for x in cxxast.walk(inner) if x.get("kind") == "DeclRefExpr"]
@@ -111,7 +132,7 @@ class G18(G10):
                     on = obj.get("name", "").rstrip("_")
                 elif obj.get("kind") == "DeclRefExpr":
                     on = obj.get("referencedDecl", {}).get("name", "")
-                m = callee.get("name", "?")
+                m = re.sub(r"\W+", "_", callee.get("name", "?")).strip("_")
                 if on in ("buf", "this", "", "context", "output"):
                     return self.var(m, want)
                 return self.var(on + "_" + m, want)
@@ -164,13 +185,22 @@ def facts18(fname, fn, rel, defs, order):
             # comparisons nested inside the operands (memcmp(...) == 0) still get their call facts
         if k == "VarDecl" and kids and is_num(n) and n.get("name") in ("data", "dataLen", "len", "byte_size", "close"):
             emit18(defs, order, "%s_let_%s" % (fname, n.get("name")), kids[-1], "Z", text_of(n, rel))
+        if k == "VarDecl" and n.get("name") == "typeName":
+            # std::string typeName(first, last): the two pointers
+            for x in cxxast.walk(n):
+                if x.get("kind") == "CXXConstructExpr":
+                    ptrs = [a for a in x.get("inner", []) if isinstance(a, dict) and is_num(a)]
+                    if len(ptrs) == 2:
+                        for j, a in enumerate(ptrs):
+                            emit18(defs, order, "%s_typeName_arg%d" % (fname, j), a, "Z", text_of(n, rel))
+                        break
         if k in ("CXXMemberCallExpr", "CallExpr"):
             callee = cxxast.strip(kids[0])
             nm = callee.get("name") or callee.get("referencedDecl", {}).get("name")
             args = [c for c in kids[1:] if c.get("kind") != "CXXDefaultArgExpr"]
             iargs = [a for a in args if is_num(a)]
             if nm in ("retrieve", "parse", "validateChecksum", "asInt32", "checksum", "memcmp", "ensureWritableBytes",
-                      "hasWritten", "retrieveUntil", "appendInt32", "prepend") and iargs:
+                      "hasWritten", "retrieveUntil", "appendInt32", "prepend", "adler32") and iargs:
                 base = "%s_call%d_%s" % (fname, cnt["call"], nm)
                 cnt["call"] += 1
                 for j, a in enumerate(iargs):
@@ -245,6 +275,19 @@ def main():
     except Exception as e:  # noqa
         out.append("(* MISSING RpcCodec_rpctag: %s *)" % str(e).replace("*)", ""))
         msgs.append("MISSING RpcCodec_rpctag")
+    # the three private constants of the OLD codec (examples/protobuf/codec/codec.h)
+    try:
+        h, _ = cxxast.var_const(OLD_HDR, "kHeaderLen")
+        mn, _ = cxxast.var_const(OLD_HDR, "kMinMessageLen", env={"kHeaderLen": h})
+        mx, _ = cxxast.var_const(OLD_HDR, "kMaxMessageLen", env={"kHeaderLen": h})
+        out.append("(* %s: ProtobufCodec::kHeaderLen, kMinMessageLen, kMaxMessageLen *)" % OLD_HDR)
+        out.append("Definition ProtobufCodec_kHeaderLen : Z := (%d)." % h)
+        out.append("Definition ProtobufCodec_kMinMessageLen : Z := (%d)." % mn)
+        out.append("Definition ProtobufCodec_kMaxMessageLen : Z := (%d)." % mx)
+        out.append("")
+    except Exception as e:  # noqa
+        out.append("(* MISSING ProtobufCodec constants: %s *)" % str(e).replace("*)", ""))
+        msgs.append("MISSING ProtobufCodec_constants")
     for r in REQUIRED:
         if r not in defs or defs[r].startswith("(* untranslated"):
             out.append("(* MISSING %s *)" % r)
